@@ -1250,7 +1250,7 @@ func splitTextBox(context *layoutContext, box *bo.TextBox, availableWidth pr.May
 			resumeIndex = len(text_)
 		}
 		between := ""
-		if length < resumeIndex {
+		if 0 <= length && length < resumeIndex {
 			between = string(text_[length:resumeIndex])
 		}
 		preservedLineBreak = len(strings.Trim(between, " ")) != 0
